@@ -253,6 +253,12 @@ pub fn run(v: &Value) -> Value {
                     Ok(None) => outs.push(json!({"layout": null})),
                     Err(e) => outs.push(json!({"err": errstr(&e)})),
                 }
+            } else if let Some(f) = step["read"].as_str() {
+                // the text of a (small) file of the database directory
+                match std::fs::read(path.join(f)) {
+                    Ok(b) => outs.push(json!({"read": String::from_utf8_lossy(&b)})),
+                    Err(e) => outs.push(json!({"err": errstr(e)})),
+                }
             } else if step["ls"].as_bool() == Some(true) {
                 outs.push(json!({"ls": list_dir(&path)}));
             }
